@@ -70,6 +70,9 @@ var c09Fns = []c09Fn{
 	{name: "quantile1-by", op: "quantile_over_time", unwrap: true, group: true, param: 1, vals: "pow2"},
 	{name: "quantile0-by", op: "quantile_over_time", unwrap: true, group: true, param: 0, vals: "pow2"},
 	{name: "quantile99-by", op: "quantile_over_time", unwrap: true, group: true, param: 0.99, vals: "pow2"},
+	{name: "stddev-big-by", op: "stddev_over_time", unwrap: true, group: true, vals: "big"},
+	{name: "stdvar-big-by", op: "stdvar_over_time", unwrap: true, group: true, vals: "big"},
+	{name: "avg-big-by", op: "avg_over_time", unwrap: true, group: true, vals: "big"},
 	{name: "sum-bytes", op: "sum_over_time", unwrap: true, conv: "bytes", vals: "bytes"},
 	{name: "max-duration-by", op: "max_over_time", unwrap: true, conv: "duration", group: true, vals: "dur"},
 	{name: "avg-duration-seconds-by", op: "avg_over_time", unwrap: true, conv: "duration_seconds", group: true, vals: "dur"},
@@ -95,6 +98,8 @@ func c09Data(in c09Input, fn c09Fn) []mockq.Rec {
 				v = strconv.Itoa((1 << uint(s)) + k)
 			case "const":
 				v = "3"
+			case "big": // large values lying close together (a variance from sums of squares cancels)
+				v = strconv.Itoa(10000000 + s + k)
 			case "bytes":
 				v = []string{"2KB", "1KiB", "512B", "3MB"}[s%4]
 			case "dur":
@@ -110,7 +115,11 @@ func c09Data(in c09Input, fn c09Fn) []mockq.Rec {
 		if fn.unwrap {
 			labels = append(labels, mockq.KV{K: "v", V: strconv.Itoa(1 + (k*7919)%in.Many)})
 		}
-		recs = append(recs, mockq.Rec{TS: c09Base*sec + int64(k)*8*sec/int64(in.Many) + int64(k%7), Line: "xy\u00e9\u4e16", Labels: labels})
+		ts := c09Base*sec + int64(k)*8*sec/int64(in.Many) + int64(k%7)
+		if in.Many%16 == 0 {
+			ts -= int64(k % 7) // 16, 32, ... samples: exactly on the half / quarter seconds, so that window edges meet samples
+		}
+		recs = append(recs, mockq.Rec{TS: ts, Line: "xy\u00e9\u4e16", Labels: labels})
 	}
 	for i, s := range in.A {
 		add("a", s, 0)
@@ -322,7 +331,7 @@ func c09Run(r *vkit.Run) {
 		r.State(fmt.Sprintf("%d:%v", di, d))
 		if di == 0 {
 			// windows with many samples (shard of the first data set only)
-			for _, many := range []int{13, 50, 300, 2000} {
+			for _, many := range []int{13, 16, 32, 50, 300, 2000} {
 				for _, fn := range c09Fns {
 					if fn.vals != "" && fn.vals != "pow2" {
 						continue
@@ -340,7 +349,7 @@ func c09Run(r *vkit.Run) {
 			}
 		}
 	}
-	r.Note("bounds", fmt.Sprintf("sample sets: all subsets of {0..8}s of size <=%d (+ doubled-timestamp and second-series variants); ranges {1,2,4}s x offsets {0,1,3}s x starts 0..6 x spans 0..8 x steps {instant,1,2,3,5}s x storage time-filtering on/off for count/avg/last; a reduced grid (starts {0,3}, spans {0,4,8}, steps {instant,1,3}) for the other %d function variants; the three window-identifying functions again on grids in units of 100 ms and of 15 s; windows holding 13, 50, 300 and 2000 samples for every function; request entry limits {none,1,2} (a metric query ignores them); unwrapped durations with fractional seconds, byte sizes in four units", maxSize, len(c09Fns)-3))
+	r.Note("bounds", fmt.Sprintf("sample sets: all subsets of {0..8}s of size <=%d (+ doubled-timestamp and second-series variants); ranges {1,2,4}s x offsets {0,1,3}s x starts 0..6 x spans 0..8 x steps {instant,1,2,3,5}s x storage time-filtering on/off for count/avg/last; a reduced grid (starts {0,3}, spans {0,4,8}, steps {instant,1,3}) for the other %d function variants; the three window-identifying functions again on grids in units of 100 ms and of 15 s; windows holding 13, 16, 32 (samples exactly on window edges), 50, 300 and 2000 samples for every function; request entry limits {none,1,2} (a metric query ignores them); unwrapped durations with fractional seconds, byte sizes in four units", maxSize, len(c09Fns)-3))
 }
 
 func c09Replay(r *vkit.Run, v vkit.Violation) *vkit.Violation {
